@@ -250,6 +250,58 @@ def socket_path(ctx, res):
                                    "pieces": plan, "stream": stream.hex()})
         rn.close()
         stream_greeted = stream_saved
+    # a well-formed frame the node does not serve (a request for a transaction) in the middle of the stream: whatever the node
+    # does with it, it does the same under every fragmentation — here: it answers what precedes it and drops the connection
+    from skepticoin.networking.messages import GetDataMessage, DATA_TRANSACTION
+    parts_ = [node.frame(MessageHeader(0, 1, 0, 7), GetPeersMessage()),
+              node.frame(MessageHeader(0, 2, 0, 7), GetDataMessage(DATA_TRANSACTION, bytes(range(32)))),
+              node.frame(MessageHeader(0, 3, 0, 7), GetPeersMessage()),
+              node.frame(MessageHeader(0, 4, 0, 7), GetPeersMessage())]
+    sb_ = b"".join(parts_)
+    a1_, a2_ = len(parts_[0]), len(parts_[0]) + len(parts_[1])
+    plans_ = [[len(sb_)], [a2_, len(sb_) - a2_], [a2_, 1, len(sb_) - a2_ - 1], [a2_ - 1, 1, len(sb_) - a2_], [a1_, a2_ - a1_, len(sb_) - a2_],
+              [a2_ + 8, len(sb_) - a2_ - 8], [a2_, len(parts_[2]), len(parts_[3])]]
+    for _ in range(ctx.scale(8, 40)):
+        x_ = sorted(rng.sample(range(1, len(sb_)), rng.choice([1, 2, 3])))
+        plans_.append([b_ - a_ for a_, b_ in zip([0] + x_, x_ + [len(sb_)])])
+    outcomes_ = []
+    for plan in plans_:
+        rn = node.RealNode(tree.cs, tree.blocks)
+        c = rn.add_peer(active=True)
+        peer, other = rn.peers[c], rn.sockets[c]
+        other.setblocking(True)
+        pos = 0
+        for size in plan:
+            try:
+                other.sendall(sb_[pos:pos + size])
+            except OSError:
+                break
+            pos += size
+            for _guard in range(64):
+                try:
+                    key = rn.lp.selector.get_key(peer.sock)
+                except (KeyError, ValueError):
+                    break
+                if not select.select([peer.sock], [], [], 0)[0]:
+                    break
+                rn.lp.handle_remote_peer_selector_event(key, selectors.EVENT_READ)
+        answered = sum(1 for f in rn.frames(peer) if f != "PARTIAL" and isinstance(f[1], PeersMessage))
+        still = any(q is peer for q in rn.lp.network_manager.connected_peers.values())
+        outcomes_.append((answered, still))
+        res.case(("socket-unserved", tuple(plan)), nontrivial=True)
+        res.count("socket_path_unserved_request_fragmentations")
+        rn.close()
+    kept_short = [i for i, (a_, st_) in enumerate(outcomes_) if st_ and a_ != 3]
+    if kept_short:
+        res.violations.append({"kind": "a stream with a well-formed request the node does not serve: the connection is kept, but only "
+                                       "%d of the 3 answerable frames were delivered (the frames behind the unserved request never are)"
+                                       % outcomes_[kept_short[0]][0], "stream": sb_.hex(), "pieces": plans_[kept_short[0]]})
+    if len(set(outcomes_)) != 1:
+        k_ = next(i for i, o_ in enumerate(outcomes_) if o_ != outcomes_[0])
+        res.violations.append({"kind": "a stream with a well-formed request the node does not serve: written in one piece the node "
+                                       "answers %d frame(s) and %s the connection, written in pieces of %s bytes it answers %d and %s it"
+                                       % (outcomes_[0][0], "keeps" if outcomes_[0][1] else "drops", plans_[k_], outcomes_[k_][0],
+                                          "keeps" if outcomes_[k_][1] else "drops"), "stream": sb_.hex(), "pieces": plans_[k_]})
     chain.unpatch()
 
 
